@@ -3,6 +3,9 @@ package main
 import (
 	"encoding/json"
 	"fmt"
+	"os"
+	"os/exec"
+	"path/filepath"
 	"sort"
 )
 
@@ -147,6 +150,87 @@ func runGuarded(e Engine, sc interface{}, ctx *RunCtx) (f *Finding, infraMsg str
 	return e.Run(sc, ctx), ""
 }
 
+// FreshProcesser is implemented by engines some of whose oracles only work
+// once per process (race reports are de-duplicated per process): candidates
+// are then re-executed in a fresh process.
+type FreshProcesser interface {
+	FreshProcess(class string) bool
+}
+
+type oneResult struct {
+	Class  string   `json:"class"`
+	Detail string   `json:"detail"`
+	Log    []string `json:"log"`
+	Infra  string   `json:"infra"`
+}
+
+// runFresh executes one scenario in a fresh process of this binary.
+func runFresh(e Engine, sc interface{}, ctx *RunCtx) (*Finding, string) {
+	dir := filepath.Join(outRoot(), "work")
+	os.MkdirAll(dir, 0o755)
+	f, err := os.CreateTemp(dir, "scenario-*.json")
+	if err != nil {
+		return nil, "cannot create scenario file: " + err.Error()
+	}
+	defer os.Remove(f.Name())
+	f.Write(mustJSON(sc))
+	f.Close()
+	self, _ := os.Executable()
+	cmd := exec.Command(self, "runone", e.Property(), f.Name())
+	cmd.Stderr = os.Stderr
+	out, err := cmd.Output()
+	var r oneResult
+	if jerr := json.Unmarshal(out, &r); jerr != nil {
+		return nil, fmt.Sprintf("fresh-process run failed: %v %v: %s", err, jerr, firstLine(string(out)))
+	}
+	ctx.Log = append(ctx.Log[:0], r.Log...)
+	if r.Infra != "" {
+		return nil, r.Infra
+	}
+	if r.Class == "" {
+		return nil, ""
+	}
+	return &Finding{Class: r.Class, Detail: r.Detail}, ""
+}
+
+// runOneMain: verifsim runone <prop> <scenario file> — prints a oneResult.
+func runOneMain(args []string) int {
+	if len(args) < 2 {
+		usage()
+	}
+	e, ok := engines[args[0]]
+	if !ok {
+		return 2
+	}
+	raw, err := os.ReadFile(args[1])
+	if err != nil {
+		return 2
+	}
+	sc, err := e.Decode(raw)
+	if err != nil {
+		return 2
+	}
+	ctx := NewRunCtx()
+	ctx.Quiet = true
+	f, im := runGuarded(e, sc, ctx)
+	r := oneResult{Log: ctx.Log, Infra: im}
+	if f != nil {
+		r.Class, r.Detail = f.Class, f.Detail
+	}
+	os.Stdout.Write(mustJSON(r))
+	removeRaceLog()
+	return 0
+}
+
+// evalCandidate runs a scenario in this process, or in a fresh one when the
+// engine asks for that.
+func evalCandidate(e Engine, sc interface{}, class string, ctx *RunCtx) (*Finding, string) {
+	if fp, ok := e.(FreshProcesser); ok && fp.FreshProcess(class) {
+		return runFresh(e, sc, ctx)
+	}
+	return runGuarded(e, sc, ctx)
+}
+
 // shrink minimises sc greedily while the same class of violation persists.
 func shrink(e Engine, sc interface{}, class string, budget int) (interface{}, int) {
 	runs := 0
@@ -159,7 +243,7 @@ func shrink(e Engine, sc interface{}, class string, budget int) (interface{}, in
 				break
 			}
 			runs++
-			f, im := runGuarded(e, cand, ctx)
+			f, im := evalCandidate(e, cand, class, ctx)
 			if im == "" && f != nil && f.Class == class {
 				sc = cand
 				progress = true
